@@ -71,6 +71,7 @@ func cmdVerify(args []string) {
 	keep := fs.Bool("keep", false, "keep smt files")
 	timeout := fs.Int("timeout", 10000, "per-obligation timeout ms")
 	verbose := fs.Bool("v", false, "verbose")
+	nosolve := fs.Bool("n", false, "do not solve; list obligations")
 	fs.Parse(args)
 	p := loadAll(*repo)
 	var keys []string
@@ -95,6 +96,16 @@ func cmdVerify(args []string) {
 	bad := 0
 	for _, k := range keys {
 		rep := p.VerifyFunc(k)
+		if *nosolve {
+			fmt.Printf("== %s: %d obligations\n", rep.Name, len(rep.Obls))
+			for _, o := range rep.Obls {
+				fmt.Println("   ", o.Name)
+			}
+			for _, o := range rep.OOS {
+				fmt.Println("   out-of-subset:", o)
+			}
+			continue
+		}
 		SolveAll(rep.Obls, cfg)
 		fmt.Printf("== %s (%s) ssa=%s\n", rep.Name, rep.Pos, rep.SSAHash)
 		if rep.Err != "" {
